@@ -205,11 +205,18 @@ def run_protocol(pclass_name, cfg, noise, suffix, sent_payloads, spec, ctx, case
                     bad += b"\x7e" + hdlc_gen.on_wire(bytes(b2), cfg[0]) + b"\x7e"
                 for ch in (suffix, bytes(bad), suffix, b"/ABC5x\r\n1.8.0(1)\r\n!0000\r\n" * 20, suffix):
                     clock.tick()
+                    armed = steps.arm(steps.read_budget(len(ch)) * 2)
                     try:
                         proto.data_received(ch)
+                    except steps.CpuBudgetExceeded:
+                        ctx.violation(f"C14:{pclass_name}.data_received:did-not-return", f"data_received() of a {len(ch)}-octet chunk used more than {2 * steps.read_budget(len(ch)):.1f} s of CPU time without returning", case)
+                        return True
                     except Exception as ex:
                         record(ctx, f"{pclass_name}.data_received", ex, dict(case, after="selection + 24 invalid messages"))
                         raised = True
+                    finally:
+                        if armed:
+                            steps.disarm()
                 ctx.count("protocols_fed_long_invalid_runs_after_selection")
             finally:
                 pass
@@ -258,6 +265,10 @@ def run(shard: dict, ctx) -> None:
         for k in kinds:
             ctx.count(f"noise_{k}")
         run_case(target, cfg, noise, kinds, rng, ctx)
+        if sum(v for k, v in ctx.violation_counts.items() if k.endswith(":did-not-return")) >= 3:
+            # every further hit costs a full CPU budget; the verdict of this shard is settled
+            ctx.count("shards_stopped_after_three_calls_that_did_not_return")
+            return
         if i < 2:
             ctx.sample({"target": target, "cfg": list(cfg), "noise_kinds": kinds, "noise": noise[:100]})
 
